@@ -77,6 +77,10 @@ def step (w : SWorld) (op : Op) : Option SWorld :=
       | some f => if f.isOpen then
           some { w with frag := some { f with bits := f.bits.filter (fun p => p / shardWidth != r) } } else none
       | none => none
+  | .fimport clear vals => match w.frag with
+      | some f => if f.isOpen then
+          some { w with frag := some { f with bits := if clear then vdiff f.bits (vofList vals) else vunion f.bits (vofList vals) } } else none
+      | none => none
   | .fsnap => match w.frag with
       | some f => if f.isOpen then some w else none
       | none => none
